@@ -5,7 +5,7 @@ use crate::gen;
 use crate::oracle::{classify, is_window};
 use crate::refenc::{self, ASct, W};
 use crate::rng::Rng;
-use crate::visit::{first_outside, Slices};
+use crate::visit::{first_outside, Slices, veq};
 use serde_json::json;
 use tls_parser::*;
 
@@ -25,7 +25,7 @@ fn list_case(ctx: &mut Ctx, input: &[u8], exp: &[ASct], consumed: usize, label: 
         let r = parse_ct_signed_certificate_timestamp_list(input);
         let out = classify(&r);
         match &r {
-            Ok((_, v)) => (out, Some(*v == expv), v.len(), format!("{:.200?}", v.first())),
+            Ok((_, v)) => (out, Some(veq(v, &expv)), v.len(), format!("{:.200?}", v.first())),
             Err(_) => (out, None, 0, String::new()),
         }
     });
@@ -168,7 +168,7 @@ pub fn run(ctx: &mut Ctx) {
         let got = ctx.guarded("parse_ct_signed_certificate_timestamp", &input, || {
             let r = parse_ct_signed_certificate_timestamp(&input);
             let out = classify(&r);
-            (out, r.as_ref().ok().map(|(_, v)| *v == a.expected()))
+            (out, r.as_ref().ok().map(|(_, v)| veq(v, &a.expected())))
         });
         if let Some((out, eq)) = got {
             ctx.eval();
